@@ -67,6 +67,20 @@ import (
 // from the states in which the base's cwd has moved, the next level; the
 // reference, hence the verdict, is that of the clean spelling.
 //
+// Every failing path of every call must translate its error paths, and many
+// failures arise only when the BASE refuses. Two more variants (MemFS, first
+// call of a history only; no fault injection, only file systems of the
+// library used as they are):
+//   - ro: the wrapper stands on rofs.New(base), the reference is
+//     rofs.New(standalone): every mutating call of the whole first-level
+//     alphabet is refused by the base on both sides;
+//   - user: base and reference have an identity manager and the calls are made
+//     by a non-administrator user in a world (userWorld) with root-owned
+//     directories and files, an unsearchable directory, an unreadable file,
+//     and a directory of the user holding a root-owned non-empty directory:
+//     reads, creations, removals and renames are refused at various depths,
+//     by the base's own permission checks. userStrings / userPairs name it.
+//
 // Levels. The operation list is static and sorted by decreasing MaxLevel, the
 // deepest level at which an operation is applied; NumOps of the system (which
 // bfs asks after replaying a history) is the length of the prefix that applies
@@ -99,6 +113,9 @@ type opT struct {
 	// Links: the operands name the symbolic links of the base (nothing to do
 	// over a base without symbolic links).
 	Links bool `json:"links,omitempty"`
+	// User: the operands name the world of the variant user (nothing to do
+	// elsewhere).
+	User bool `json:"user,omitempty"`
 }
 
 const subPrefix = "Sub:"
@@ -216,6 +233,26 @@ var outLinks = [][2]string{
 var outLinkStrings = []string{
 	"la", "/la", "la/", "lo", "/lo", "lo/", "lo/..", "ldo", "/ldo", "ldo/", "ldo/f", "/ldo/f", "ldo/x", "/ldo/x", "ldo/k", "ldo/..", "ldo/../secret2",
 	"lup", "/lup", "lupd", "/lupd", "lupd/f", "/lupd/f", "lupd/x", "lupd/k/x", "a/lup", "/a/lup",
+}
+
+// The world of the variant user, below B and below the reference's root,
+// made by the administrator: w (of the user) with w/f (of the user) and the
+// root-owned non-empty w/locked; p, root-owned and unsearchable (0700), with
+// p/f; s, a root-owned unreadable file (0600). Everything else (B itself, a, f,
+// a/f) is root-owned 0755/0644.
+const (
+	userName  = "u"
+	userGroup = "ug"
+)
+
+var userStrings = []string{
+	"w", "/w", "w/", "w/f", "/w/f", "w/x", "/w/x", "w/x/y", "w/locked", "/w/locked", "w/locked/f", "/w/locked/f", "w/locked/x", "/w/locked/x",
+	"p", "/p", "p/", "p/f", "/p/f", "p/x", "/p/x", "p/..", "s", "/s", "s/", "s/x", "w/..", "/w/../s", "../w/f", "/../p/f", "w//f", "/w/locked/../f",
+}
+
+var userPairs = [][2]string{
+	{"w/f", "w/x"}, {"/w/f", "/w/x"}, {"w/f", "x"}, {"f", "w/x"}, {"w/locked", "w/y"}, {"w/locked/f", "w/x"}, {"w/f", "w/locked/x"},
+	{"s", "w/s"}, {"p/f", "w/x"}, {"w/f", "p/x"}, {"a", "w/a"}, {"w", "x"}, {"w/f", "/../x"},
 }
 
 // basePathSpellings: unclean but equivalent spellings of B given to the
@@ -447,6 +484,19 @@ func buildOps(tier string) []opT {
 	for _, p := range outLinkStrings {
 		for _, c := range singleCalls {
 			ops = append(ops, opT{Call: c, A: p, MaxLevel: 1, Links: true})
+		}
+	}
+
+	// the world of the variant user
+	for _, p := range userStrings {
+		for _, c := range singleCalls {
+			ops = append(ops, opT{Call: c, A: p, MaxLevel: 1, User: true})
+		}
+	}
+
+	for _, pr := range userPairs {
+		for _, c := range []string{"Rename", "Link", "Symlink"} {
+			ops = append(ops, opT{Call: c, A: pr[0], B: pr[1], Two: true, MaxLevel: 1, User: true})
 		}
 	}
 
